@@ -1,5 +1,6 @@
 // Unit fragment: multiboot2-header Builder (C12) and EndHeaderTag::new (C07).
 // Struct definitions, setters and build() are extracted verbatim from /repo.
+use core::ptr;
 verus! {
 
 //@extract multiboot2-header/src/console.rs :: enum ConsoleHeaderTagFlags
@@ -316,6 +317,8 @@ impl MaybeDynSized for InformationRequestHeaderTag {
 
 impl InformationRequestHeaderTag {
 //@extractall multiboot2-header/src/information_request.rs :: impl InformationRequestHeaderTag
+//@  fn *: nocontract
+//@  fn *: rules R2b
 //@  fn new: skip
 //@  fn typ: skip
 //@  fn flags: skip
